@@ -101,6 +101,13 @@ def _to_sympy0(t, sp, syms, pc=()):
         S_ = sp.Symbol('sqrt%d' % len(roots), real=True)
         roots.append((key, S_, arg))
         return S_
+    if k == z3.Z3_OP_UNINTERPRETED and t.num_args() > 0 and z3.is_arith(t):
+        # application of an uninterpreted (abstract) function: an atomic generator, one symbol per distinct term
+        # (sound for proving identities: whatever value the application has, the identity holds for it)
+        key = '\0app:' + t.sexpr()
+        if key not in syms:
+            syms[key] = sp.Symbol('app%d' % len(syms), real=True)
+        return syms[key]
     raise _Give()
 
 
@@ -178,6 +185,36 @@ def prove_identities(claim, pc=(), budget_s=20):
                 return False
         return True
     except (_Give, TimeoutError, RecursionError):
+        return None
+    finally:
+        signal.setitimer(signal.ITIMER_VIRTUAL, 0)
+        signal.signal(signal.SIGVTALRM, old)
+
+
+def nonzero_multiple(t, facts, pc=(), budget_s=3):
+    """True when the real term `t` is identically  q * f  for a non-zero rational constant q and some term f of `facts`
+    (terms known to be non-zero on this path): then  t == 0  is infeasible.  None / False: not shown."""
+    try:
+        import sympy as sp
+    except ImportError:
+        return None
+    old = signal.signal(signal.SIGVTALRM, _alarm)
+    signal.setitimer(signal.ITIMER_VIRTUAL, budget_s)
+    try:
+        syms = {}
+        d = _to_sympy(t, sp, syms, pc)
+        for f in facts:
+            try:
+                g = _to_sympy(f, sp, syms, pc)
+            except _Give:
+                continue                         # a fact outside the rational-function fragment says nothing here
+            if syms.get('\0roots'):
+                return None                      # radicals: leave to the solvers
+            r = sp.cancel(sp.together(d / g))
+            if r.is_number and r != 0:
+                return True
+        return False
+    except (_Give, TimeoutError, RecursionError, ZeroDivisionError):
         return None
     finally:
         signal.setitimer(signal.ITIMER_VIRTUAL, 0)
